@@ -444,4 +444,10 @@ def gtMarshal (e : GFp12) : Bytes :=
   [e.x.x.x, e.x.x.y, e.x.y.x, e.x.y.y, e.x.z.x, e.x.z.y,
    e.y.x.x, e.y.x.y, e.y.y.x, e.y.y.y, e.y.z.x, e.y.z.y].flatMap be32
 
+/-- `GT.Unmarshal`: only the length is checked; coordinates are taken as they are -/
+def gtUnmarshal (m : Bytes) : Option GFp12 :=
+  if m.length ≠ 384 then none else
+  let c (i : Nat) : Int := natOfBE ((m.drop (32 * i)).take 32)
+  some ⟨⟨⟨c 0, c 1⟩, ⟨c 2, c 3⟩, ⟨c 4, c 5⟩⟩, ⟨⟨c 6, c 7⟩, ⟨c 8, c 9⟩, ⟨c 10, c 11⟩⟩⟩
+
 end XC.C52
